@@ -13,7 +13,7 @@ Definition spec_mode (flags : Z) : option fmode :=
   else if acc =? 2 then Some (if app then Map else Mrp)
   else None.
 
-Inductive closing := StillOpen | ClosedBeforeReadlink | ClosedBeforeFdinfo.
+Inductive closing := StillOpen | ClosedBeforeReadlink | ClosedBeforeFdinfo | ClosedDuringFdinfoRead.
 
 Record kfd := {
   k_fd : bytes;          (* directory entry name: decimal *)
@@ -40,6 +40,7 @@ Definition to_model (e : kfd) : fdent :=
      fd_isfile := if k_isreg e then IsReg else NotReg;
      fd_info := match k_closing e with
                 | ClosedBeforeFdinfo => FENOENT
+                | ClosedDuringFdinfoRead => FReadENOENT
                 | _ => FContent (k_fdinfo e) end |}.
 
 Definition k_path (e : kfd) : bytes := readlink_clean (k_raw e) (k_exists_cut e).
